@@ -86,6 +86,10 @@ func main() {
 	case "--replay":
 		silence()
 		os.Exit(replayMain(os.Args[2]))
+	case "--oneshot":
+		// runs a short history of parse calls in this pristine process and prints the dumps (C06)
+		silence()
+		c06Oneshot(os.Args[2])
 	case "--list":
 		var ids []string
 		for id := range registry {
